@@ -61,7 +61,7 @@ type CfgCore struct {
 	unexp     int
 	held      Held // unexported; the defaults point HeldP at it
 	HeldP     *Held
-	Chain     []Stage // a recursive type, nested dozens of levels deep
+	Chain     dp120 // 120 levels of nesting
 	Ch        chan int
 	Fn        func()
 	After     int
@@ -137,17 +137,153 @@ func buildHeld(s string) Held {
 	return Held{M: map[string]int{s: len(s)}, L: []string{s, s + "'"}}
 }
 
-// Stage recurses through a slice: a chain of them is as deep as one likes.
-type Stage struct {
-	Labels map[string]int
-	Then   []Stage
+// Deep nesting without a recursive type (the decoders' transformer does not
+// terminate on those): 120 levels of slices around a map.
+type dp0 = map[string]int
+type dp1 = []dp0
+type dp2 = []dp1
+type dp3 = []dp2
+type dp4 = []dp3
+type dp5 = []dp4
+type dp6 = []dp5
+type dp7 = []dp6
+type dp8 = []dp7
+type dp9 = []dp8
+type dp10 = []dp9
+type dp11 = []dp10
+type dp12 = []dp11
+type dp13 = []dp12
+type dp14 = []dp13
+type dp15 = []dp14
+type dp16 = []dp15
+type dp17 = []dp16
+type dp18 = []dp17
+type dp19 = []dp18
+type dp20 = []dp19
+type dp21 = []dp20
+type dp22 = []dp21
+type dp23 = []dp22
+type dp24 = []dp23
+type dp25 = []dp24
+type dp26 = []dp25
+type dp27 = []dp26
+type dp28 = []dp27
+type dp29 = []dp28
+type dp30 = []dp29
+type dp31 = []dp30
+type dp32 = []dp31
+type dp33 = []dp32
+type dp34 = []dp33
+type dp35 = []dp34
+type dp36 = []dp35
+type dp37 = []dp36
+type dp38 = []dp37
+type dp39 = []dp38
+type dp40 = []dp39
+type dp41 = []dp40
+type dp42 = []dp41
+type dp43 = []dp42
+type dp44 = []dp43
+type dp45 = []dp44
+type dp46 = []dp45
+type dp47 = []dp46
+type dp48 = []dp47
+type dp49 = []dp48
+type dp50 = []dp49
+type dp51 = []dp50
+type dp52 = []dp51
+type dp53 = []dp52
+type dp54 = []dp53
+type dp55 = []dp54
+type dp56 = []dp55
+type dp57 = []dp56
+type dp58 = []dp57
+type dp59 = []dp58
+type dp60 = []dp59
+type dp61 = []dp60
+type dp62 = []dp61
+type dp63 = []dp62
+type dp64 = []dp63
+type dp65 = []dp64
+type dp66 = []dp65
+type dp67 = []dp66
+type dp68 = []dp67
+type dp69 = []dp68
+type dp70 = []dp69
+type dp71 = []dp70
+type dp72 = []dp71
+type dp73 = []dp72
+type dp74 = []dp73
+type dp75 = []dp74
+type dp76 = []dp75
+type dp77 = []dp76
+type dp78 = []dp77
+type dp79 = []dp78
+type dp80 = []dp79
+type dp81 = []dp80
+type dp82 = []dp81
+type dp83 = []dp82
+type dp84 = []dp83
+type dp85 = []dp84
+type dp86 = []dp85
+type dp87 = []dp86
+type dp88 = []dp87
+type dp89 = []dp88
+type dp90 = []dp89
+type dp91 = []dp90
+type dp92 = []dp91
+type dp93 = []dp92
+type dp94 = []dp93
+type dp95 = []dp94
+type dp96 = []dp95
+type dp97 = []dp96
+type dp98 = []dp97
+type dp99 = []dp98
+type dp100 = []dp99
+type dp101 = []dp100
+type dp102 = []dp101
+type dp103 = []dp102
+type dp104 = []dp103
+type dp105 = []dp104
+type dp106 = []dp105
+type dp107 = []dp106
+type dp108 = []dp107
+type dp109 = []dp108
+type dp110 = []dp109
+type dp111 = []dp110
+type dp112 = []dp111
+type dp113 = []dp112
+type dp114 = []dp113
+type dp115 = []dp114
+type dp116 = []dp115
+type dp117 = []dp116
+type dp118 = []dp117
+type dp119 = []dp118
+type dp120 = []dp119
+
+const deepLevelsCore = 120
+
+func buildDeep(seed int) dp120 {
+	var v reflect.Value = reflect.ValueOf(dp0{"seed": seed})
+	for i := 0; i < deepLevelsCore; i++ {
+		s := reflect.MakeSlice(reflect.SliceOf(v.Type()), 1, 1)
+		s.Index(0).Set(v)
+		v = s
+	}
+	return v.Interface().(dp120)
 }
 
-func buildChain(depth, seed int) []Stage {
-	if depth <= 0 {
-		return nil
+// deepBottom returns the map at the bottom of a deep value (nil if absent).
+func deepBottom(d dp120) dp0 {
+	v := reflect.ValueOf(d)
+	for v.Kind() == reflect.Slice {
+		if v.Len() == 0 {
+			return nil
+		}
+		v = v.Index(0)
 	}
-	return []Stage{{Labels: map[string]int{"level": depth, "seed": seed}, Then: buildChain(depth-1, seed)}}
+	m, _ := v.Interface().(dp0)
+	return m
 }
 
 type PeerSpec struct {
@@ -379,7 +515,7 @@ func fillValue(e reflect.Value, p *Part, owner int) {
 		setPtr(fld("TU"), buildTU(*p.TU))
 	}
 	if p.Chain > 0 {
-		fld("Chain").Set(reflect.ValueOf(buildChain(p.Chain, int(p.ID))))
+		fld("Chain").Set(reflect.ValueOf(buildDeep(int(p.ID))))
 	}
 	if p.Held != nil {
 		f := fld("HeldP")
@@ -519,7 +655,7 @@ func defaultsFrom(p *Part) *CfgCore {
 		c.TU = buildTU(*p.TU)
 	}
 	if p.Chain > 0 {
-		c.Chain = buildChain(p.Chain, int(p.ID))
+		c.Chain = buildDeep(int(p.ID))
 	}
 	if p.Held != nil {
 		c.held = buildHeld(*p.Held)
